@@ -338,5 +338,5 @@ def poly_rules(ctx, rule):
             "dealer_rng must build one random_polynomial(element, threshold, rng) per secret chunk inside its chunk loop", at2)
     # the degree is the declared threshold - 1 only if ADSS hands Sharks the access structure's threshold as it is
     from .c16 import threshold_unmodified
-    threshold_unmodified(ctx, rule, ("adss::Commune::share",))
+    threshold_unmodified(ctx, rule, ("adss::Commune::share",), cfg="A!")      # adss exists only in the workspace build
     ctx.floor(rule, 6)
